@@ -316,3 +316,4 @@ def c15(ctx, rep):
     spelling.rule_constant_block(ctx, rep)
     spelling.rule_one_door(ctx, rep)
     spelling.rule_rewrite_invariance(ctx, rep)
+    spelling.rule_padding_invariance(ctx, rep)
